@@ -1,0 +1,38 @@
+//go:build verif
+
+package gnosis
+
+import (
+	"context"
+
+	"github.com/jackc/pgx/v4/pgxpool"
+
+	obskeyper "github.com/shutter-network/rolling-shutter/rolling-shutter/chainobserver/db/keyper"
+	"github.com/shutter-network/rolling-shutter/rolling-shutter/keyper/epochkghandler"
+	"github.com/shutter-network/rolling-shutter/rolling-shutter/medley/broker"
+	"github.com/shutter-network/rolling-shutter/rolling-shutter/p2p"
+)
+
+// VerifNewHandlers returns the flavour's message handlers the way Start registers them.
+func VerifNewHandlers(dbpool *pgxpool.Pool) []p2p.MessageHandler {
+	return []p2p.MessageHandler{&DecryptionKeySharesHandler{dbpool}, &DecryptionKeysHandler{dbpool}}
+}
+
+// VerifNewKeyper returns a Keyper with only the fields set that slot processing needs.
+func VerifNewKeyper(
+	c *Config,
+	dbpool *pgxpool.Pool,
+	triggers chan *broker.Event[*epochkghandler.DecryptionTrigger],
+) *Keyper {
+	return &Keyper{config: c, dbpool: dbpool, decryptionTriggerChannel: triggers, syncMonitor: &SyncMonitor{}}
+}
+
+// VerifTriggerDecryption calls triggerDecryption.
+func (kpr *Keyper) VerifTriggerDecryption(ctx context.Context, slot uint64, nextBlock int64, keyperSet *obskeyper.KeyperSet) error {
+	return kpr.triggerDecryption(ctx, slot, nextBlock, keyperSet)
+}
+
+// VerifGetTxPointer calls getTxPointer.
+func VerifGetTxPointer(ctx context.Context, db *pgxpool.Pool, eon int64, maxTxPointerAge int64) (int64, error) {
+	return getTxPointer(ctx, db, eon, maxTxPointerAge)
+}
